@@ -11,6 +11,7 @@ import Driver.OpsPropfind
 import Driver.OpsCardWire
 import Driver.OpsCalWire
 import Driver.OpsFront
+import Driver.OpsClient
 namespace Driver
 
 def dispatch (op : String) (args : List SExp) : Option OpResult :=
@@ -57,6 +58,11 @@ def dispatch (op : String) (args : List SExp) : Option OpResult :=
   | "card.dec" => opCardDec args
   | "card.encmg" => opCardEncMg args
   | "card.decmg" => opCardDecMg args
+  | "cli.do" => opCliDo args
+  | "cli.ms" => opCliMs args
+  | "cli.resp" => opCliResp args
+  | "cli.sync" => opCliSync args
+  | "cli.meth" => opCliMeth args
   | "srv.req" => opSrvReq args
   | "srv.obj" => opSrvObj args
   | "cal.enc" => opCalEnc args
